@@ -21,6 +21,10 @@ type Target struct {
 	Deps    []int
 	SleepMs int
 	Fail    string // "" | "exit" (command exits 1) | "undef" (depends on a label that does not exist)
+	// require/provide and post-build add_dep (all targets involved live in one package):
+	Provides []int    // provides = {"lang": these targets}: a dependent that requires "lang" gets them instead of this one
+	Requires bool     // requires = ["lang"]
+	PostAdd  [][2]int // post_build function: add_dep(target [0], dependency [1]) once this target is built
 }
 
 // Case is one generated repository plus one plz invocation.
@@ -69,8 +73,37 @@ func (c *Case) Encode() string {
 	if c.KeepGoing {
 		kg = 1
 	}
-	return fmt.Sprintf("deps=%s pk=%s roots=%s n=%d kg=%d fail=%s bad=%s miss=%s", strings.Join(d, ";"), strings.Join(pk, ","),
-		ints(c.Roots), c.Par, kg, f, ints(c.BadPkg), ints(c.MissPkg))
+	var prov, req, late []string
+	dots := func(xs []int) string {
+		p := make([]string, len(xs))
+		for i, x := range xs {
+			p[i] = strconv.Itoa(x)
+		}
+		return strings.Join(p, ".")
+	}
+	for i, t := range c.Targets {
+		if len(t.Provides) > 0 {
+			prov = append(prov, fmt.Sprintf("%d:%s", i, dots(t.Provides)))
+		}
+		if t.Requires {
+			req = append(req, strconv.Itoa(i))
+		}
+		for _, pa := range t.PostAdd {
+			late = append(late, fmt.Sprintf("%d:%d.%d", i, pa[0], pa[1]))
+		}
+	}
+	dash := func(xs []string) string {
+		if len(xs) == 0 {
+			return "-"
+		}
+		return strings.Join(xs, ",")
+	}
+	sl := make([]int, len(c.Targets))
+	for i, t := range c.Targets {
+		sl[i] = t.SleepMs
+	}
+	return fmt.Sprintf("deps=%s pk=%s roots=%s n=%d kg=%d fail=%s bad=%s miss=%s prov=%s req=%s late=%s sleep=%s", strings.Join(d, ";"), strings.Join(pk, ","),
+		ints(c.Roots), c.Par, kg, f, ints(c.BadPkg), ints(c.MissPkg), dash(prov), dash(req), dash(late), ints(sl))
 }
 
 // Decode parses what Encode wrote.
@@ -146,7 +179,99 @@ func Decode(s string) (*Case, bool) {
 			c.Targets[i].Fail = p[1]
 		}
 	}
+	dotInts := func(s string) ([]int, bool) {
+		var out []int
+		for _, x := range strings.Split(s, ".") {
+			n, err := strconv.Atoi(x)
+			if err != nil || n < 0 || n >= len(c.Targets) {
+				return nil, false
+			}
+			out = append(out, n)
+		}
+		return out, true
+	}
+	if v := kv["sleep"]; v != "" && v != "-" {
+		sl, ok := ints(v)
+		if !ok || len(sl) != len(c.Targets) {
+			return nil, false
+		}
+		for i := range c.Targets {
+			c.Targets[i].SleepMs = sl[i]
+		}
+	}
+	if v := kv["prov"]; v != "" && v != "-" {
+		for _, e := range strings.Split(v, ",") {
+			p := strings.SplitN(e, ":", 2)
+			i, err := strconv.Atoi(p[0])
+			if len(p) != 2 || err != nil || i < 0 || i >= len(c.Targets) {
+				return nil, false
+			}
+			ps, ok := dotInts(p[1])
+			if !ok {
+				return nil, false
+			}
+			c.Targets[i].Provides = ps
+		}
+	}
+	if v := kv["req"]; v != "" && v != "-" {
+		rs, ok := ints(v)
+		if !ok {
+			return nil, false
+		}
+		for _, i := range rs {
+			if i >= len(c.Targets) {
+				return nil, false
+			}
+			c.Targets[i].Requires = true
+		}
+	}
+	if v := kv["late"]; v != "" && v != "-" {
+		for _, e := range strings.Split(v, ",") {
+			p := strings.SplitN(e, ":", 2)
+			i, err := strconv.Atoi(p[0])
+			if len(p) != 2 || err != nil || i < 0 || i >= len(c.Targets) {
+				return nil, false
+			}
+			tx, ok := dotInts(p[1])
+			if !ok || len(tx) != 2 {
+				return nil, false
+			}
+			c.Targets[i].PostAdd = append(c.Targets[i].PostAdd, [2]int{tx[0], tx[1]})
+		}
+	}
 	return c, true
+}
+
+// EffDeps is what target i really depends on: declared dependencies with require/provide resolved, plus the
+// dependencies other targets' post-build functions attach to it.
+func (c *Case) EffDeps(i int) []int {
+	var out []int
+	add := func(x int) {
+		for _, y := range out {
+			if y == x {
+				return
+			}
+		}
+		out = append(out, x)
+	}
+	t := c.Targets[i]
+	for _, d := range t.Deps {
+		if t.Requires && len(c.Targets[d].Provides) > 0 {
+			for _, p := range c.Targets[d].Provides {
+				add(p)
+			}
+		} else {
+			add(d)
+		}
+	}
+	for _, a := range c.Targets {
+		for _, pa := range a.PostAdd {
+			if pa[0] == i {
+				add(pa[1])
+			}
+		}
+	}
+	return out
 }
 
 // Event of the action log: S start, E end (success), F about to fail, M a dependency's output was missing.
@@ -234,8 +359,34 @@ func (c *Case) Write(dir string) (repo, log string, err error) {
 		for _, i := range is {
 			t := c.Targets[i]
 			srcs := make([]string, 0, len(t.Deps)+1)
+			var deps []string
 			for _, d := range t.Deps {
-				srcs = append(srcs, fmt.Sprintf("%q", c.Label(d)))
+				if len(c.Targets[d].Provides) > 0 {
+					deps = append(deps, fmt.Sprintf("%q", c.Label(d))) // resolved through require/provide: not a source
+				} else {
+					srcs = append(srcs, fmt.Sprintf("%q", c.Label(d)))
+				}
+			}
+			extra := ""
+			if len(deps) > 0 {
+				extra += fmt.Sprintf(", deps=[%s]", strings.Join(deps, ", "))
+			}
+			if t.Requires {
+				extra += ", requires=[\"lang\"]"
+			}
+			if len(t.Provides) > 0 {
+				ps := make([]string, len(t.Provides))
+				for j, x := range t.Provides {
+					ps[j] = fmt.Sprintf("%q", fmt.Sprintf(":t%d", x))
+				}
+				extra += fmt.Sprintf(", provides={\"lang\": [%s]}", strings.Join(ps, ", "))
+			}
+			if len(t.PostAdd) > 0 {
+				fmt.Fprintf(&b, "def _pb%d(name, output):\n", i)
+				for _, pa := range t.PostAdd {
+					fmt.Fprintf(&b, "    add_dep(%q, %q)\n", fmt.Sprintf("t%d", pa[0]), fmt.Sprintf(":t%d", pa[1]))
+				}
+				extra += fmt.Sprintf(", post_build=_pb%d", i)
 			}
 			if t.Fail == "undef" {
 				srcs = append(srcs, fmt.Sprintf("%q", fmt.Sprintf("//p%d:nosuch%d", t.Pkg, i)))
@@ -248,8 +399,8 @@ func (c *Case) Write(dir string) (repo, log string, err error) {
 				cmd += "; " + ev("F", i) + "; exit 1"
 			}
 			cmd += "; echo " + strconv.Itoa(i) + " > $OUT; " + ev("E", i)
-			fmt.Fprintf(&b, "genrule(name=%q, srcs=[%s], outs=[%q], cmd=%q, visibility=[\"PUBLIC\"])\n",
-				fmt.Sprintf("t%d", i), strings.Join(srcs, ", "), fmt.Sprintf("t%d.out", i), cmd)
+			fmt.Fprintf(&b, "genrule(name=%q, srcs=[%s], outs=[%q], cmd=%q, visibility=[\"PUBLIC\"]%s)\n",
+				fmt.Sprintf("t%d", i), strings.Join(srcs, ", "), fmt.Sprintf("t%d.out", i), cmd, extra)
 		}
 		pd := filepath.Join(repo, fmt.Sprintf("p%d", pkg))
 		if err = os.MkdirAll(pd, 0o755); err != nil {
@@ -345,7 +496,7 @@ func (c *Case) Needed() map[int]bool {
 			return
 		}
 		seen[i] = true
-		for _, d := range c.Targets[i].Deps {
+		for _, d := range c.EffDeps(i) {
 			visit(d)
 		}
 	}
@@ -374,7 +525,7 @@ func (c *Case) CheckLog(ev []Event) []Violation {
 			if started[e.T] > 1 {
 				v = append(v, Violation{"ran-twice", fmt.Sprintf("target %d started %d times", e.T, started[e.T])})
 			}
-			for _, d := range c.Targets[e.T].Deps {
+			for _, d := range c.EffDeps(e.T) {
 				if !ended[d] {
 					cls := "started-before-dependency-finished"
 					if failed[d] {
